@@ -859,17 +859,32 @@ func (g *gen) writeBuiltinNumType(b *buffer, recv *a.Expr, method t.ID, args []*
 		return nil
 
 	case t.IDHighBits:
-		// "recv.high_bits(n:etc)" in C is "((recv) >> (8*sizeof(recv) - (n)))".
+		// "recv.high_bits(n:etc)" in C is "((recv) >> (8*sizeof(recv) - (n)))"
+		// when n is a non-zero constant. In general, n can be zero, and
+		// shifting a uint32_t or uint64_t by its full width is undefined
+		// behavior, so it is "(((recv) >> 1u) >> ((8*sizeof(recv) - 1) - (n)))".
+		sz, err := g.sizeof(recv.MType())
+		if err != nil {
+			return err
+		}
+		if cv := args[0].AsArg().Value().ConstValue(); (cv == nil) || (cv.Sign() == 0) {
+			b.writes("(((")
+			if err := g.writeExpr(b, recv, false, depth); err != nil {
+				return err
+			}
+			b.printf(") >> 1u) >> (%du - ", (8*sz)-1)
+			if err := g.writeExpr(b, args[0].AsArg().Value(), false, depth); err != nil {
+				return err
+			}
+			b.writes("))")
+			return nil
+		}
 		b.writes("((")
 		if err := g.writeExpr(b, recv, false, depth); err != nil {
 			return err
 		}
 		b.writes(") >> (")
-		if sz, err := g.sizeof(recv.MType()); err != nil {
-			return err
-		} else {
-			b.printf("%du", 8*sz)
-		}
+		b.printf("%du", 8*sz)
 		b.writes(" - ")
 		if err := g.writeExpr(b, args[0].AsArg().Value(), false, depth); err != nil {
 			return err
